@@ -10,7 +10,7 @@ RULE = (
     "cases: seeded random meshes (mixed face sizes, shuffled face order so size partitions interleave, partial, "
     "padding wider than needed) x all 10 reductions x both destinations x dtype in {float64,float32,int64,bool} x "
     "rank 1..3 (element dimension last), data carrying sentinel values on node 0 and on the last node so that a "
-    "padding index that wraps becomes visible; plus all unsupported (source kind, destination) pairs, which must raise. "
+    "padding index that wraps becomes visible; then a second grid with the same counts and width whose faces come in another order; plus all unsupported (source kind, destination) pairs, which must raise. "
     "Oracle: python loop over the model's node lists applying the numpy reduction. Non-trivial = mesh mixes face "
     "sizes or rank >= 2."
 )
@@ -92,6 +92,24 @@ def run_case(ctx, case):
             want_dims = tuple(dims[:-1] + ["n_" + dest])
             ok = isinstance(res, U.UxDataArray) and tuple(res.dims) == want_dims and res.uxgrid is g and res.name == "v"
             ctx.check("dims_grid", ok, sig, {"type": type(res).__name__, "dims": list(res.dims), "want": list(want_dims), "name": res.name})
+    # a second grid in the same process with the same element counts, padding width and source kind, whose faces come in
+    # another order (so the size partitions differ): its results are its own
+    m2 = gen.renumbered(m, case["dseed"] + 3, nodes=False, faces=True, starts=True)
+    g2 = ux.grid_from_mesh(m2, width=width)
+    uxda2 = U.UxDataArray(data.copy(), dims=dims, uxgrid=g2, name="v")
+    for agg in ("mean", "max", "sum", "median"):
+        sig = {"agg": agg, "dest": "face", "dtype": case["dtype"], "mixed": mixed, "twin": "faces_reordered_same_counts"}
+        try:
+            res = getattr(uxda2, "topological_" + agg)(destination="face")
+            want = np.empty(tuple(lead) + (m2.n_face,), dtype=float)
+            for i, nodes in enumerate(m2.faces):
+                want[..., i] = getattr(np, agg)(data[..., nodes], axis=-1)
+            got = np.asarray(res.values)
+            ok = got.shape == want.shape and bool(np.allclose(got.astype(float), want, rtol=1e-12 if case["dtype"] != "float32" else 1e-5, atol=0, equal_nan=True))
+            ctx.check("values", ok, sig, {"mesh": case["mesh"]})
+            ctx.check("dims_grid", isinstance(res, U.UxDataArray) and res.uxgrid is g2 and tuple(res.dims) == tuple(dims[:-1] + ["n_face"]), sig, {"dims": list(res.dims)})
+        except Exception as e:
+            ctx.check("no_exception", False, dict(sig, exc=core.exc_sig(e)), {"exc": repr(e), "mesh": case["mesh"]})
     # unsupported combinations must raise, never return numbers
     n_edge = int(g.n_edge)
     combos = []
